@@ -52,6 +52,16 @@ func SeqReplay(n *vnode.Node) string {
 		if err != nil {
 			return fmt.Sprintf("sequence %d names an unknown block: %v", s, err)
 		}
+		// a replaying reader fetches the block of a record through LoadBlockBySequence (the push task and
+		// EventGetBlockBySeq do): it must be the block the record names, also for a block that a
+		// reorganisation removed and another one replaced at its height
+		bd, _, err := st.LoadBlockBySequence(s)
+		if err != nil || bd == nil || bd.Block == nil {
+			return fmt.Sprintf("sequence %d: the block of the record cannot be loaded by sequence: %v", s, err)
+		}
+		if !bytes.Equal(bd.Block.Hash(n.Cfg), rec.Hash) {
+			return fmt.Sprintf("sequence %d: loading the block by sequence returns another block (height %d) than the record names (height %d)", s, bd.Block.Height, hdr.Height)
+		}
 		h := hdr.Height
 		switch rec.Type {
 		case types.AddBlock:
